@@ -261,7 +261,13 @@ impl Family for EofFam {
         let c = case.clone();
         let r = with_world(|w| {
             w.rt.block_on(async {
-                let case = c;
+                let mut case = c;
+                if case.closer == Closer::TargetClose {
+                    // a target that closes while bytes from the application sit unread in its socket
+                    // makes the kernel send a reset, which may discard data in flight - that is TCP,
+                    // not the proxy: a closing target has nothing unread
+                    case.up = 0;
+                }
                 let down = keyed(2, 1, 0, case.down);
                 let mode = match case.closer {
                     Closer::TargetHalfClose => TargetMode::SendThenShutdown(down.clone()),
